@@ -9,12 +9,14 @@ C03 — Function patterns and symbol geometry are exact for all 40 versions.
 * `C03_template_in_bounds` : building the blank symbol touches no cell outside the square
                       (`templateTraps v = []`; the model treats any access outside `size x size`
                       as a trap).
-* `C03_invariance`  : (symbolic, every payload / level / mask) data placement, masking and the format
-                      writer change only `Data`- and `Format`-typed cells, so every function-pattern
-                      module of a built symbol is the blank symbol's — see Proofs/Invariance.lean.
+* `C03_invariance`  : (symbolic, EVERY payload / level / mask / mode / version option) in every symbol
+                      the model builder returns, the side is 17+4v and every function-pattern module
+                      has the ISO value: data placement, the format writer and all eight masks change
+                      only `Data`- and `Format`-typed cells (Proofs/Invariance.lean, Proofs/BuildSound.lean).
 -/
 import FastQr.Finite.Tables
 import FastQr.Proofs.TemplateSound
+import FastQr.Proofs.BuildSound
 
 namespace FastQr.Props.C03
 open FastQr Model Spec Finite Proofs
@@ -45,6 +47,20 @@ theorem C03_template_in_bounds {v : Nat} (hv : v < 40) :
     templateTraps v = [] ∧ (template v).n = Regions.side v ∧
       (template v).cells.size = Regions.side v * Regions.side v :=
   ⟨template_traps hv, template_n hv, template_size hv⟩
+
+/-- **C03 (every built symbol)**: for EVERY input, level, mask, mode and version option for which the
+model builder returns a symbol, the side is 17 + 4·version and every finder, separator, timing,
+alignment and dark-module cell has exactly the ISO value — independent of payload, level and mask -/
+theorem C03_invariance (inp : List Nat) (o : Opts) (ho : LegalOpts o) (b : Built)
+    (h : (build inp o).val = .ok b) :
+    b.qr.n = 17 + 4 * (b.version + 1) ∧
+    ∀ r c, r < Regions.side b.version → c < Regions.side b.version →
+      ∀ x, Regions.stdValue b.version r c = some x → b.qr.value r c = x := by
+  have hv := (build_final inp o ho b h).1
+  refine ⟨?_, fun r c hr hc => (built_props inp o ho b h hr hc).2.2.1⟩
+  have h0 : 0 < Regions.side b.version := by simp only [Regions.side]; omega
+  have := (built_props inp o ho b h (r := 0) (c := 0) h0 h0).1
+  rw [this]; simp only [Regions.side]; omega
 
 /-! non-vacuity: version 7 (index 6) has an alignment pattern centred on the timing row at (6, 22) -/
 example : Regions.stdValue 6 6 22 = some true ∧ Regions.stdValue 6 5 22 = some false := by decide +kernel
